@@ -270,6 +270,14 @@ def close(a, b, rtol, scale=None):
     return err <= rtol, err
 
 
+def scale_floor(geo, mask, stack, semi):
+    """1% of the natural magnitude max|stack| / W of a reconstruction: results far below it
+    (e.g. ssb when the disc overlaps vanish) are float32 rounding noise of intermediate
+    quantities of natural size and are compared on that scale, not on their own"""
+    W = float(aperture_weights(geo, semi)[mask].sum())
+    return 0.01 * float(np.abs(stack).max()) / max(W, 1e-3)
+
+
 def gen_config(r, kernel=None):
     k = kernel or r.choice(list(KERNELS))
     cfg = {"kernel": k, "u": r.choice([1, 1, 2, 3]), "flip": r.random() < 0.5,
@@ -311,7 +319,8 @@ def oracle_batch_alias(ctx, geo, cfg, replay_only=False):
     dp, mask, stack, semi = build(geo, aberr=cfg["aberr"])
     nbf = int(mask.sum())
     ref = rec(dp, **rkw(cfg))
-    scale = max(float(np.abs(ref).max()), 1e-30)
+    own = float(np.abs(ref).max())
+    scale = max(own, scale_floor(geo, mask, stack, semi))
     out = []
     worst = 0.0
     for b in range(1, nbf + 1):
@@ -332,7 +341,7 @@ def oracle_batch_alias(ctx, geo, cfg, replay_only=False):
             break
     if not np.isfinite(ref).all():
         out.append(("non-finite-result/%s" % cfg["kernel"], "non-finite values in the result", {}))
-    return out, worst, nbf, scale
+    return out, worst, nbf, own
 
 
 def oracle_linear(ctx, geo, cfg, coef):
@@ -350,7 +359,7 @@ def oracle_linear(ctx, geo, cfg, coef):
     r2 = rec(dp2, **rkw(cfg, b=bs[1]))
     dp3, *_ = build(geo, stack=s3, aberr=cfg["aberr"])
     r3 = rec(dp3, **rkw(cfg, b=bs[2]))
-    scale = abs(a) * np.abs(r1).max() + abs(b) * np.abs(r2).max() + 1e-30
+    scale = abs(a) * np.abs(r1).max() + abs(b) * np.abs(r2).max() + (abs(a) + abs(b)) * scale_floor(geo, mask, s1, semi)
     ok, err = close(r3, a * r1 + b * r2, RT_LIN, scale)
     if not ok:
         return [("nonlinear-in-stack/%s" % cfg["kernel"],
@@ -398,7 +407,7 @@ def oracle_submask(ctx, geo, cfg, parts_l):
     parts = [np.array(p, bool) for p in parts_l]
     full = rec(dp, **rkw(cfg, b=max(1, nbf // 2)))
     full_bf = full.sum(0)
-    scale = max(float(np.abs(full).max()), 1e-30)
+    scale = max(float(np.abs(full).max()), scale_floor(geo, mask, stack, semi))
     pos_full = list(zip(*np.nonzero(mask)))
     wimp = aperture_weights_impl(dp, geo, cfg["aberr"])
     wown = aperture_weights(geo, semi)
@@ -414,15 +423,19 @@ def oracle_submask(ctx, geo, cfg, parts_l):
             return out, 0.0
         ref = np.array([full[pos_full.index(p)] for p in pos])
         den = float((ref * ref).sum())
-        if den <= 1e-60:
-            # degenerate: the full reconstruction of these pixels vanishes identically (e.g. parallax with
-            # sign flipping and zero aberrations: sign(sin 0) = 0); the sub-mask images must vanish too
-            if float(np.abs(got).max()) > 1e-30:
+        if float(np.abs(ref).max()) < scale_floor(geo, mask, stack, semi):
+            # degenerate: the full reconstruction of these pixels vanishes (e.g. parallax with sign flipping
+            # and zero aberrations: sign(sin 0) = 0) or is rounding noise: no weight ratio can be measured
+            # from it; the recombination with the aperture weights below still applies
+            if float(np.abs(ref).max()) == 0.0 and float(np.abs(got).max()) > 1e-30:
                 out.append(("submask-entry-mismatch/%s" % cfg["kernel"],
                             "kernel %s: full-mask images vanish but sub-mask %d images do not" % (cfg["kernel"], pi),
                             {"part": pi}))
                 return out, float("inf")
             inv_ratios = None
+            comb_own += float(wown[pm].sum()) * got.sum(0)
+            if wimp is not None:
+                comb_imp += float(wimp[pm].sum()) * got.sum(0)
             continue
         ratio = float((got * ref).sum() / den)       # = W_full / W_part
         ok, err = close(got, ratio * ref, RT_LIN, scale * max(abs(ratio), 1.0))
@@ -629,7 +642,8 @@ def skeleton_case(ctx, geo, cfg):
     body = clist(["cmp_stack (%s) %s" % (run.replace("@B@", cnat(b)), c_stack_r(wt_)) for b, wt_ in zip(bsizes, wants)])
     defs = "Definition g := %s.\nDefinition contrib := %s.\n%sDefinition wt := %s.\nDefinition env := %s.\n" % (
         g, c_stack_c(contrib), lets, clist([cfl(x) for x in wt]), c_img_r(env))
-    return (defs, body), {"bsizes": bsizes, "nbf": nbf, "scale": float(max(np.abs(x).max() for x in wants))}
+    return (defs, body), {"bsizes": bsizes, "nbf": nbf, "scale": float(max(np.abs(x).max() for x in wants)),
+                          "floor": scale_floor(geo, mask, stack, semi)}
 
 
 def pipeline_case(ctx, geo, cfg, sub):
@@ -654,7 +668,7 @@ def pipeline_case(ctx, geo, cfg, sub):
                 c_grid(n1, n2), c_grid(n1 * u, n2 * u), c_stack_r(stack), c_stack_c(gtab),
                 clist([cfl(x) for x in wtab]), c_img_r(env), c_stack_r(want)))
     body = "cmp_stack (f_mask_single gs %s %s stack gtab wtab env %s) want" % (c_mask(mask), c_mask(sub), cnat(b))
-    return defs, body
+    return (defs, body), scale_floor(geo, mask, stack, semi)
 
 
 def observed_index_map(geo, mask, sub):
@@ -800,8 +814,9 @@ def check_skeleton(ctx: Ctx):
             cfg["u"] = 1
         mask, _, _ = realise(geo)
         sub = split_mask_weighted(r, geo, 2)[0] if r.random() < 0.7 else mask
-        exprs.append(pipeline_case(ctx, geo, cfg, sub))
-        metas.append(("pipeline", geo, cfg, {"sub": np.asarray(sub).tolist()}))
+        pc, fl = pipeline_case(ctx, geo, cfg, sub)
+        exprs.append(pc)
+        metas.append(("pipeline", geo, cfg, {"sub": np.asarray(sub).tolist(), "floor": fl}))
     if hook_missing:
         ctx.cov["skeleton_hook"] = "_return_kernel_contributions not available: skeleton correspondence skipped"
         ctx.log("NOTE: per-pixel contribution hook unavailable; skeleton correspondence reduced")
@@ -813,7 +828,7 @@ def check_skeleton(ctx: Ctx):
         for idx, pr in enumerate(res):
             # Coq prints ((m, e), (m', e')) as (m, e, (m', e'))
             err, sc = pair_to_float((pr[0], pr[1])), pair_to_float(pr[2])
-            rel = err / max(sc, 1e-30) if math.isfinite(err) else float("inf")
+            rel = err / max(sc, meta.get("floor", 0.0), 1e-30) if math.isfinite(err) else float("inf")
             ctx.cov["traces_validated_against_impl"] += 1
             ctx.count((kind, json.dumps(geo, sort_keys=True), json.dumps(cfg, sort_keys=True), idx), nontrivial=True)
             ctx.dist("model-run/%s/%s/u=%d" % (kind, cfg["kernel"], cfg["u"]))
